@@ -39,6 +39,7 @@ type c15Case struct {
 	Kind     string  `json:"kind,omitempty"` // object | actor
 	Typ      string  `json:"typ,omitempty"`
 	Explicit *string `json:"explicit"`
+	Form     string  `json:"form,omitempty"` // how the explicit collection is held: "" an IRI, "ptr"/"val" an embedded collection object with that id
 	Actor    bool    `json:"actorType"`
 }
 
@@ -56,12 +57,22 @@ func lastSegIsName(o string) bool {
 	return false
 }
 
+func c15Explicit(cs c15Case) ap.Item {
+	switch cs.Form {
+	case "ptr":
+		return &ap.OrderedCollection{ID: ap.ID(*cs.Explicit), Type: ap.OrderedCollectionType, TotalItems: 3}
+	case "val":
+		return ap.Collection{ID: ap.ID(*cs.Explicit), Type: ap.CollectionType}
+	}
+	return ap.IRI(*cs.Explicit)
+}
+
 func c15Value(cs c15Case) ap.Item {
 	col := ap.CollectionPath(cs.C)
 	if cs.Kind == "actor" {
 		a := &ap.Actor{ID: ap.ID(cs.ID), Type: ap.ActivityVocabularyType(cs.Typ)}
 		if cs.Explicit != nil {
-			e := ap.IRI(*cs.Explicit)
+			e := c15Explicit(cs)
 			switch col {
 			case ap.Inbox:
 				a.Inbox = e
@@ -85,7 +96,7 @@ func c15Value(cs c15Case) ap.Item {
 	}
 	o := &ap.Object{ID: ap.ID(cs.ID), Type: ap.ActivityVocabularyType(cs.Typ)}
 	if cs.Explicit != nil {
-		e := ap.IRI(*cs.Explicit)
+		e := c15Explicit(cs)
 		switch col {
 		case ap.Likes:
 			o.Likes = e
@@ -180,7 +191,7 @@ func c15Emit(c *Ctx, cs c15Case) {
 func init() {
 	campaigns["C15"] = func(c *Ctx) {
 		owners := c15Owners(c.R, c.N(150, 3000))
-		c.Rule = fmt.Sprintf("%d owner IRIs (hosts with ports and mixed case, nested paths, trailing slashes, percent-escapes, path segments that are themselves collection names) x the 8 collection names: IRIf, Split(IRIf), OfActor, ValidCollectionIRI on the built IRI and on the owner; objects and actors (actor types and the generic type) x 8 names x explicit collection set/unset: Of and IRI. Owners with percent-escapes are outside the model's URL grammar (skipped by the model, judged by the oracle).", len(owners))
+		c.Rule = fmt.Sprintf("%d owner IRIs (hosts with ports and mixed case, nested paths, trailing slashes, percent-escapes, path segments that are themselves collection names) x the 8 collection names: IRIf, Split(IRIf), OfActor, ValidCollectionIRI on the built IRI and on the owner; objects and actors (actor types and the generic type) x 8 names x explicit collection unset / set as an IRI / set as an embedded collection object (by pointer, by value) with its own id: Of and IRI. Owners with percent-escapes are outside the model's URL grammar (skipped by the model, judged by the oracle).", len(owners))
 		for _, o := range owners {
 			for _, n := range c15Names {
 				c15Emit(c, c15Case{F: "iriF", O: o, C: string(n)})
@@ -207,6 +218,7 @@ func init() {
 			if c.R.Chance(60) {
 				e := o + "/custom-" + string(n)
 				cs.Explicit = &e
+				cs.Form = []string{"", "", "ptr", "val"}[c.R.Intn(4)]
 			}
 			c15Emit(c, cs)
 		}
